@@ -141,9 +141,16 @@ func (c pbCase) frame() []byte {
 
 // pbVersion draws a version of exactly n bytes (n <= 16), interior NULs and high bytes allowed,
 // never NUL-terminated.
+// pbSpecialVersions: the default version, its prefixes and versions that merely START with it.
+var pbSpecialVersions = []string{"1.0.0", "1.0.0-rc1", "1.0.0.1", "1.0.01", "1.0.0+build.0016", "1.0.", "1.0", "1", "1.0.0\x00x", "1.0.1", "01.0.0"}
+
 func pbVersion(r *gen.Rand, n int) string {
 	if n == 0 {
 		return ""
+	}
+	if r.Intn(6) == 0 {
+		// one version in six is related to DefaultVer; the requested length is only a hint then
+		return pbSpecialVersions[r.Intn(len(pbSpecialVersions))]
 	}
 	v := make([]byte, n)
 	for i := range v {
